@@ -45,5 +45,6 @@ where
     P: AsRef<Path>,
 {
     let mut writer = File::create(dst).map(Writer::new)?;
-    writer.write_index(index)
+    writer.write_index(index)?;
+    writer.get_mut().try_finish()
 }
